@@ -398,6 +398,9 @@ def aux_of(scenario, pidx):
     return out
 
 
+SCRIBBLE = 1.25e-77
+
+
 def score_only(a, b):
     """A non-finite score comes with a meaningless (partly uninitialised)
     gradient: only the scores are compared then."""
@@ -452,6 +455,7 @@ def run(scenario, world):
                         what, h_), step)
     data_dirty = set()
     held = Held()
+    scribbled = []   # all-inf gradients the caller has overwritten (kept alive)
     check_inputs(-1)
     # building the derived objects must leave the user's own models as they
     # were: compare their names with those of the same model built alone
@@ -561,6 +565,28 @@ def run(scenario, world):
                     and np.isscalar(res[0]) and not np.isfinite(res[0])):
                 # (not the uninitialised gradient next to a -inf score)
                 held.keep('%s.%s (step %d)' % (kind, q, step), res)
+            elif isinstance(res, tuple) and len(res) == 2 and isinstance(
+                    res[1], np.ndarray) and res[1].size > 0 \
+                    and res[1].dtype.kind == 'f':
+                # The gradient next to a non-finite score is never compared,
+                # but it is the caller's: when it is the deliberate all-inf
+                # fill the caller overwrites it, and no later evaluation may
+                # hand that overwritten array (or its content) back.  The
+                # arrays stay referenced, so uninitialised memory of a later
+                # result cannot be theirs.
+                g = res[1]
+                if any(g is s_ for s_ in scribbled) or bool(
+                        np.all(g == SCRIBBLE)):
+                    raise Violation(
+                        'result_overwritten', 'caller_change_handed_back',
+                        '%s.%s returned, next to a non-finite score, the '
+                        'gradient array an earlier evaluation had handed to '
+                        'the caller (who had overwritten it)' % (kind, q),
+                        step)
+                if g.flags.writeable and bool(np.all(g == np.inf)):
+                    g[...] = SCRIBBLE
+                    scribbled.append(g)
+                    world.probe('inf_gradient_overwritten_by_caller')
             # (d) arguments unchanged
             if not snapshot_equal(snap_x, x) or any(
                     not snapshot_equal(snap_aux[k], aux[k]) for k in aux):
